@@ -216,3 +216,51 @@ Section SemRun.
         * apply IH; [intros o' c' Hin; apply HK; right; exact Hin|assumption].
   Qed.
 End SemRun.
+
+(* ---- dynamic range, any number of constants quantized in place ---- *)
+Section HybridMany.
+  Variable val : Type.
+  Variable K : Z -> Z -> list (option val) -> list val.
+  Variable isq : Z -> bool.
+  Variables (q dq : Z -> val).
+
+  (* operand lists that agree except that the quantized side may hold q c where
+     the float side holds dq c *)
+  Inductive rel_operands : list (option val) -> list (option val) -> Prop :=
+  | RO_nil : rel_operands [] []
+  | RO_same x l l' : rel_operands l l' -> rel_operands (x :: l) (x :: l')
+  | RO_quant c l l' : isq c = true -> rel_operands l l' -> rel_operands (Some (dq c) :: l) (Some (q c) :: l').
+
+  (* idealised hybrid-kernel contract *)
+  Definition hybrid_exact_many : Prop :=
+    forall c u ins ins', rel_operands ins ins' -> K c u ins' = K c u ins.
+
+  Definition InvQM (e e' : env val) : Prop :=
+    (forall c, isq c = true -> e c = Some (dq c) /\ e' c = Some (q c)) /\
+    (forall t, isq t = false -> e' t = e t).
+
+  Lemma step_hybrid_many e e' o :
+    hybrid_exact_many -> (forall t, In t (o_outs o) -> isq t = false) ->
+    InvQM e e' -> InvQM (step val K e o) (step val K e' o).
+  Proof.
+    intros HK Hw (I1 & I2). unfold Sem.step.
+    assert (R : rel_operands (map (operand val e) (o_ins o)) (map (operand val e') (o_ins o))).
+    { induction (o_ins o) as [|i l IH]; cbn; [constructor|].
+      unfold operand at 1 3. destruct (Z.eqb i (-1)); [constructor; exact IH|].
+      destruct (isq i) eqn:Ei.
+      - destruct (I1 _ Ei) as [A B]. rewrite A, B. constructor; assumption.
+      - rewrite (I2 _ Ei). constructor. exact IH. }
+    rewrite (HK _ _ _ _ R). split.
+    - intros c Hc. assert (Hn : ~ In c (o_outs o)) by (intros C; specialize (Hw _ C); congruence).
+      rewrite !upd_list_other by exact Hn. apply I1. exact Hc.
+    - intros t Ht. apply (upd_list_agree val (fun t => isq t = false)); [|exact Ht]. exact I2.
+  Qed.
+
+  Theorem quantize_in_place_many_preserves_meaning ops : forall e e',
+    hybrid_exact_many -> Forall (fun o => forall t, In t (o_outs o) -> isq t = false) ops ->
+    InvQM e e' -> InvQM (run val K ops e) (run val K ops e').
+  Proof.
+    induction ops as [|o ops IH]; intros e e' HK Hw I; cbn; [exact I|].
+    inversion Hw; subst. apply IH; [exact HK|assumption|]. apply step_hybrid_many; assumption.
+  Qed.
+End HybridMany.
